@@ -96,6 +96,11 @@ static void declare(nitro::options::parser& p, int variant)
     p.multi_option("inc", "include path").short_name("I").env("NITRO_VERIF_MT_INC");
     p.toggle("verbose", "more output").short_name("v");
     p.toggle("color", "coloured output").short_name("c").allow_reverse();
+    // toggles that take their count from environment words (different words in different declarations)
+    p.toggle("feature", "from the environment").short_name("f").env(variant & 1 ? "NITRO_VERIF_MT_YES" : "NITRO_VERIF_MT_NO");
+    // (a short name keeps it out of the synopsis' list of long-form toggles: that list is ordered by the toggle
+    // objects' ADDRESSES, so two equal declarations need not print the same synopsis when it has two entries)
+    p.toggle("other-feature", "from the environment").short_name("F").env(variant & 2 ? "NITRO_VERIF_MT_ON" : "NITRO_VERIF_MT_OFF").default_value(3);
     if (variant & 1)
     {
         auto& g = p.group("advanced", "advanced settings");
@@ -114,7 +119,8 @@ static std::string render(const nitro::options::arguments& a, int variant)
     s << "out=" << hex(a.get("out")) << a.provided("out") << " level=" << a.as<int>("level") << " inc=";
     for (auto& i : a.get_all("inc"))
         s << hex(i) << ",";
-    s << " v=" << a.given("verbose") << " c=" << a.given("color");
+    s << " v=" << a.given("verbose") << " c=" << a.given("color") << " f=" << a.given("feature") << a.provided("feature")
+      << " of=" << a.given("other-feature");
     if (variant & 1)
         s << " seed=" << (a.provided("seed") ? hex(a.get("seed")) : std::string("-")) << " n=" << a.given("dry-run");
     s << " pos=";
@@ -385,6 +391,28 @@ static std::string fv_job(int n, Mk&& mk)
             nitro::lang::fixed_vector<E> m(std::move(c));
             v.erase(v.begin());
             v.pop_back();
+            // the other ways of adding elements, and list assignment with a list that fills the capacity exactly
+            {
+                const E lv = mk(n * 7 + round);
+                v.push_back(lv);
+                v.pop_back();
+                v.insert(lv);
+                v.pop_back();
+                v.insert(mk(n * 7 + round + 1));
+                v.pop_back();
+                v.emplace(v.begin(), mk(5));
+                v.erase(v.begin());
+                nitro::lang::fixed_vector<E> l4(4);
+                l4 = { mk(n), mk(n + 1), mk(n + 2), mk(n + 3) };
+                nitro::lang::fixed_vector<E> l2(4);
+                l2 = { mk(round), mk(n) };
+                std::vector<E> src{ mk(1), mk(2), mk(3) };
+                nitro::lang::fixed_vector<E> r(8);
+                r.push_back(src.begin(), src.end());
+                r.insert(r.begin() + 1, src.begin(), src.end());
+                bad += !(l4[3] == mk(n + 3)) + !(l2[1] == mk(n)) + !(r[1] == mk(1)) + !(r[4] == mk(2)) + (l4.size() != 4) + (l2.size() != 2) +
+                       (r.size() != 6);
+            }
             try
             {
                 while (true)
@@ -436,6 +464,11 @@ struct LogFmt
 template <typename R>
 using LogFilter = nitro::log::filter::severity_filter<R>;
 using Log = nitro::log::logger<LogRec, LogFmt, CaptureSink, LogFilter>;
+// a second logger whose runtime threshold is raised by the main thread before the worker threads start: the
+// threshold is a property of the logger, not of the thread that set it
+template <typename R>
+using LogFilter2 = nitro::log::filter::severity_filter<R, 7>;
+using Log2 = nitro::log::logger<LogRec, LogFmt, CaptureSink, LogFilter2>;
 
 static std::vector<Job> jobs_log()
 {
@@ -461,6 +494,19 @@ static std::vector<Job> jobs_log()
                 }
                 Log::fatal() << std::hex << 255 - n;
                 Log::trace() << n;
+                Log2::info() << "below the threshold " << [&] {
+                    ++lazies;
+                    return std::string("must not be evaluated");
+                };
+                Log2::warn() << "at the threshold " << n;
+                {
+                    auto s2 = Log2::debug();
+                    s2 << [&] {
+                        ++lazies;
+                        return std::string("must not be evaluated either");
+                    };
+                }
+                Log2::error("e") << n;
                 return log_capture + "lazies=" + std::to_string(lazies);
             });
         });
@@ -512,9 +558,34 @@ static std::vector<Job> jobs_dl()
     return j;
 }
 
+// owning ranges made once by the main thread; every job COPIES them (its own object) and walks the copy
+static const auto shared_rev = nitro::lang::reverse(std::vector<std::string>{ "one", "two", std::string(40, '3'), "four" });
+static const auto shared_enum = nitro::lang::enumerate(std::vector<int>{ 5, 6, 7, 8, 9 });
+static const auto shared_rev_list = nitro::lang::reverse({ 1, 2, 3 });
+
 static std::vector<Job> jobs_iter()
 {
     std::vector<Job> j;
+    for (int n = 0; n < 4; ++n)
+        j.push_back([n] {
+            return guarded([&] {
+                std::ostringstream s;
+                auto mine = shared_rev;
+                auto mine2 = shared_enum;
+                auto mine3 = shared_rev_list;
+                for (int k = 0; k <= n; ++k)
+                {
+                    auto again = mine;
+                    for (auto&& x : again)
+                        s << x << ",";
+                }
+                for (auto&& e : mine2)
+                    s << e.index() << "=" << e.value() << ";";
+                for (auto&& x : mine3)
+                    s << x;
+                return s.str();
+            });
+        });
     for (int n = 0; n < 16; ++n)
         j.push_back([n] {
             return guarded([&] {
@@ -560,6 +631,10 @@ int main(int argc, char** argv)
     long iters = std::atol(argv[3]);
     std::uint64_t seed = std::strtoull(argv[4], nullptr, 10);
     setenv("NITRO_VERIF_MT_INC", "e1;e2", 1);
+    setenv("NITRO_VERIF_MT_YES", "yes", 1);
+    setenv("NITRO_VERIF_MT_NO", "no", 1);
+    setenv("NITRO_VERIF_MT_ON", "ON", 1);
+    setenv("NITRO_VERIF_MT_OFF", "off", 1);
     unsetenv("NITRO_VERIF_MT_OUT");
 
     std::vector<Job> jobs;
@@ -578,7 +653,10 @@ int main(int argc, char** argv)
     else if (section == "fv")
         jobs = jobs_fv();
     else if (section == "log")
+    {
+        nitro::log::filter::severity_filter<LogRec, 7>::set_severity(nitro::log::severity_level::warn);
         jobs = jobs_log();
+    }
     else if (section == "dl")
     {
         lib_a = std::getenv("NITRO_VERIF_LIBA") ? std::getenv("NITRO_VERIF_LIBA") : "";
